@@ -126,7 +126,7 @@ def specText (bs : Bytes) : String :=
 * `oj <opts> <limits> <tree>`: text of `oj.JSON`, then the chunk list of `oj.Write` for every limit
 * `pretty <popts> <limits> <tree>`: the same for `pretty.JSON` / `pretty.WriteJSON`
 * `norm <opts> <tree>`: the tree the text has to denote
-* `normp <popts> <tree>`: the tree `pretty` without alignment is proved to denote (`normP`) -/
+* `normp <popts> <tree>`: the tree the text of `pretty` has to denote (`norm` under the options with the same meaning) -/
 def handle : List String → String
   | ["spec", hx] =>
     match ofHex hx with
@@ -163,7 +163,7 @@ def handle : List String → String
     | _, _ => "bad-op"
   | ["normp", os, tr] =>
     match parsePOpts os, parseTree tr with
-    | some o, some v => (normP o.omitNil o.omitEmpty id v).render
+    | some o, some v => (norm (Pretty.ojOptsOf o) id v).render
     | _, _ => "bad-op"
   | _ => "bad-op"
 
